@@ -1,5 +1,5 @@
 """C08 - rule-language type soundness. TLA+: spec/MiluTypes.tla (reference typing + evaluation, RefSound)."""
-import json, os
+import json, os, time
 import vlib
 
 PID = "C08"
@@ -105,6 +105,100 @@ def judge(c, o):
     return out
 
 
+DOCUMENTED_RUNTIME = ("out of bounds", "out of range", "overflow", "division by zero")
+
+
+def logformat_phase(v, wd, cases, thorough):
+    """The checker at one of its call sites: a script the proxy accepts as access-log format (required type: string) gives, for a
+    real request, a record or one of the documented runtime errors - never a type error. Expressions: generated ones whose
+    reference type is a string or a non-string, plus whole request objects reached in different ways."""
+    import bb, json as _json, socket
+    hand = ["`l=${request.listener}`", "request.listener", "request.target", "request.source", "let h = request.target.host in h",
+            "let t = request.target in t", "request.target.host", "request.target.port", "to_string(request.target.port)",
+            "[request.target][0]", "(request.target, 1).0", "if request.target.port > 0 then request.target else request.source",
+            'split(request.listener, "-")[1]', "`q=${to_string(100 / (request.target.port - 9))}`"]
+    gen_s = [c["text"] for c in cases if c["ty"]["k"] == "str" and len(c["text"]) < 60]
+    gen_o = [c["text"] for c in cases if c["ty"]["k"] not in ("str", "reject", "open") and len(c["text"]) < 60]
+    step = lambda xs, n: xs[::max(1, len(xs) // n)][:n]
+    texts = hand + step(gen_s, 10 if thorough else 4) + step(gen_o, 10 if thorough else 4)
+    out = {"tried": 0, "accepted": 0, "records": 0, "documented_runtime_errors": 0, "refused_at_load": 0}
+    for i, text in enumerate(texts):
+        api, lp = bb.free_port(), bb.free_port()
+        logp = os.path.join(wd, "lf%d.access" % i)
+        if os.path.exists(logp):
+            os.remove(logp)
+        doc = {"apiVersion": "v1alpha", "kind": "ProxyDefinition", "metrics": {"bind": "127.0.0.1:%d" % api, "ui": None},
+               "accessLog": {"path": logp, "format": {"script": text}},
+               "listeners": [{"name": "in-http", "type": "http", "bind": "127.0.0.1:%d" % lp}],
+               "connectors": [{"name": "direct", "type": "direct"}], "rules": [{"target": "direct"}]}
+        p = bb.Proxy("lf%d" % i, wd, _json.dumps(doc))
+        out["tried"] += 1
+        try:
+            p.start(wait_ports=[api], timeout=8)
+        except vlib.ToolError as e:
+            if p.panicked() or "panicked at" in str(e):
+                v.report("types/logformat/crash-at-load", {"text": text, "why": str(p.panicked() or e)[-300:]}, {"config": doc})
+            out["refused_at_load"] += 1
+            p.kill9()
+            if i == 0:
+                raise vlib.ToolError("log format control was refused: %s" % e)
+            continue
+        out["accepted"] += 1
+        outcome = None
+        try:
+            for attempt in range(2):
+                try:
+                    s = socket.create_connection(("127.0.0.1", lp), timeout=3)
+                    s.settimeout(5)
+                    s.sendall(b"CONNECT 127.0.0.1:9 HTTP/1.1\r\n\r\n")
+                    try:
+                        s.recv(4096)
+                    except OSError:
+                        pass
+                    s.close()
+                except OSError:
+                    pass
+                end = time.time() + 6
+                while time.time() < end and outcome is None:
+                    try:
+                        p.api(api, "/logrotate", method="POST", body="")      # records sit in the writer's buffer until a rotation
+                    except OSError:
+                        pass
+                    if os.path.exists(logp) and os.path.getsize(logp) > 0:
+                        outcome = ("record", "")
+                        break
+                    p.logf.flush()
+                    txt = open(p.log_path, "rb").read().decode("utf-8", "replace")
+                    k = txt.find("record skipped")
+                    if k >= 0:
+                        outcome = ("skipped", txt[k:k + 300])
+                        break
+                    if not p.alive():
+                        outcome = ("died", str(p.panicked())[:300])
+                        break
+                    time.sleep(0.4)
+                if outcome:
+                    break
+        finally:
+            p.kill9()
+            p.logf.close()
+        if outcome is None:
+            if i == 0:
+                raise vlib.ToolError("log format control produced no record")
+            continue
+        if outcome[0] == "record":
+            out["records"] += 1
+        elif outcome[0] == "died":
+            v.report("types/logformat/process-died", {"text": text, "why": outcome[1]}, {"config": doc})
+        elif any(w in outcome[1] for w in DOCUMENTED_RUNTIME):
+            out["documented_runtime_errors"] += 1
+        else:
+            v.report("types/logformat/accepted-then-type-error", {"text": text, "log": outcome[1]}, {"config": doc})
+    if out["records"] < 3:
+        raise vlib.ToolError("vacuous: log format phase wrote %d records" % out["records"])
+    return out
+
+
 def run(tier, t0):
     v = vlib.Verdicts(PID)
     wd = vlib.workdir("c08")
@@ -203,6 +297,7 @@ def run(tier, t0):
         raise vlib.ToolError("types driver answered %d of %d cases" % (n, len(cases)))
     if welltyped < 100 or accepted < 100:
         raise vlib.ToolError("vacuous: too few well-typed / accepted expressions")
+    lf = logformat_phase(v, wd, cases, thorough)
     smp = [c for c in cases if c["ty"]["k"] not in ("reject", "open")]
     ev = vlib.evidence(PID, tier, "model_checking", {
         "states": states, "transitions": trans, "traces_validated_against_impl": n,
@@ -213,7 +308,7 @@ def run(tier, t0):
                 "from depth 2) and checks RefSound on each; each text is parsed, type-checked and evaluated under 3 request "
                 "environments by the real milu crate; non-trivial = well-typed by the reference",
         "expressions": n, "accepted_by_checker": accepted, "welltyped_by_reference": welltyped, "evaluations_run": evald,
-        "exhaustive": True, "checker_cmd": cmd,
+        "exhaustive": True, "checker_cmd": cmd, "log_formats_through_the_proxy": lf,
     }, ["reference typing covers the documented core; constructs the documentation leaves open are typed Open (agreement only)",
         "integer magnitudes beyond 10^6 are abstract (big+/big-): only type and crash-freedom are checked for them",
         "harness profile has overflow checks on (the repository's dev/test profile)"])
